@@ -50,6 +50,8 @@ def strategy(tier):
             "f": draw(st.sampled_from(FACTORS)),
             "g": draw(st.sampled_from((2.0, 0.5, 3.0, 1.0 / 3.0, 0.25))),
             "reload": draw(st.integers(0, 4)) == 0,
+            # the state may have been reached through a content-preserving detour
+            "detour": draw(st.sampled_from(("none", "none", "none", "pickle", "copy", "plus-zero"))),
         }
 
     return cases()
@@ -75,6 +77,13 @@ def check(case):  # noqa: PLR0915
     more = [(r, w) for r, w in case["more"]]
     f, g = case["f"], case["g"]
     h = fill_all(build(spec), stream)
+    how = case.get("detour", "none")
+    if how == "pickle":
+        h = pickle.loads(pickle.dumps(h))
+    elif how == "copy":
+        h = h.copy()
+    elif how == "plus-zero":
+        h = h.zero() + h
     reloaded = case["reload"] and not states.has_transform(spec)  # a Count's transform is not serialised
     if reloaded:
         h = hg.Factory.fromJson(h.toJson())
